@@ -5,11 +5,13 @@ package main
 
 import (
 	"bytes"
+	"context"
 	"fmt"
 	"hash/crc32"
 	"math"
 	"sort"
 	"strings"
+	"time"
 
 	"github.com/bits-and-blooms/bloom/v3"
 	bs "github.com/danthegoodman1/bloomsearch"
@@ -273,6 +275,10 @@ func runLayout(c *ctx, which string) {
 	if which == "C26" {
 		c26Volume(c)
 	}
+	if which == "C17" {
+		c17CopiedExternal(c)
+		c17EntryLess(c)
+	}
 }
 
 func stripFilters(m bs.FileMetadata) bs.FileMetadata {
@@ -381,5 +387,117 @@ func c26Volume(c *ctx) {
 			}
 			env.Stop()
 		}
+	}
+}
+
+// c17CopiedExternal: an external writer's compressed blocks, with and without a row data checksum, copied
+// verbatim by a merge next to rebuilt blocks: every block of the merge output must still read back under its
+// own recorded compression and checksum, with the rows unchanged.
+func c17CopiedExternal(c *ctx) {
+	r := NewRng(c.seed, 171)
+	for i := 0; i < 8*c.scale; i++ {
+		cfg := bs.DefaultBloomSearchEngineConfig()
+		cfg.RowDataCompression = pick(r, []bs.CompressionType{bs.CompressionNone, bs.CompressionSnappy, bs.CompressionZstd})
+		cfg.PartitionFunc = partitionFunc("p")
+		cfg.MaxBufferedTime = time.Hour
+		h := &History{Env: NewEnv(cfg), TM: tokModes[0], PartMode: "p", Rows: map[int]*StoredRow{}}
+		mk := func(id int, pid, msg string) *StoredRow {
+			row := map[string]any{"_id": id, "p": pid, "msg": msg}
+			b, _ := mustMarshal(row)
+			return &StoredRow{ID: id, Go: row, Bytes: b, PID: pid, Vals: map[string]NumCase{}}
+		}
+		h.nextID = 10
+		h.ExtCompression = pick(r, []bs.CompressionType{bs.CompressionSnappy, bs.CompressionZstd, bs.CompressionNone})
+		withHash := r.Chance(0.4)
+		extComp := h.ExtCompression
+		h.writeExternal(map[string][]*StoredRow{"b": {mk(1, "b", "external row in b "+strings.Repeat("pad ", 20))}, "zz": {mk(2, "zz", "external row copied verbatim "+strings.Repeat("pad ", 20))}}, func() bool { return withHash }, c.r)
+		h.ExtCompression = ""
+		h.Env.IngestWait([]map[string]any{{"_id": 3, "p": "b", "msg": "engine row"}})
+		_, merr := h.Env.Eng.Merge(context.Background())
+		replay := map[string]any{"external_compression": string(extComp), "external_hash": withHash, "engine_compression": string(cfg.RowDataCompression), "merge_err": fmt.Sprint(merr)}
+		c.r.Case(true, fmt.Sprint("copied-external", i, extComp, withHash, cfg.RowDataCompression))
+		c.r.Hit("c17.copied-external")
+		layout, lerr := h.Layout()
+		if merr != nil {
+			c.r.Add(Finding{Kind: "disagreement", Check: "history-merge", Detail: "healthy merge failed: " + merr.Error(), Replay: replay})
+		} else if lerr != nil {
+			c.r.Add(Finding{Kind: "violation", Check: "read-back", Detail: "a block of the merge output does not read back under its own recorded compression / checksum: " + lerr.Error(), Replay: replay})
+		} else {
+			ids := map[int]int{}
+			for _, f := range layout {
+				for _, b := range f.Blocks {
+					for _, id := range b.RowIDs {
+						ids[id]++
+					}
+				}
+			}
+			if ids[1] != 1 || ids[2] != 1 || ids[3] != 1 {
+				c.r.Add(Finding{Kind: "violation", Check: "read-back", Detail: fmt.Sprintf("rows after the merge: %v (want each of 1,2,3 once)", ids), Replay: replay})
+			}
+			out := h.Env.Query(&bs.Query{})
+			if out.Err != nil || len(out.Rows) != 3 {
+				c.r.Add(Finding{Kind: "violation", Check: "read-back", Detail: fmt.Sprintf("a query over the merge output returns %d rows, err %v", len(out.Rows), out.Err), Replay: replay})
+			}
+		}
+		h.Env.Stop()
+	}
+}
+
+// c17EntryLess: blocks whose rows contribute no token (null leaves, empty containers, empty objects) or no
+// entry at all: the measured distinct-entry counts the metadata reports must be what the rows contain -
+// zero where there is nothing.
+func c17EntryLess(c *ctx) {
+	r := NewRng(c.seed, 172)
+	pool := []map[string]any{{}, {"a": nil}, {"a": []any{}}, {"b": map[string]any{}}, {"a": nil, "c": []any{nil}}, {"d": map[string]any{"e": nil}}}
+	for i := 0; i < 6*c.scale; i++ {
+		cfg := bs.DefaultBloomSearchEngineConfig()
+		cfg.MaxBufferedTime = time.Hour
+		env := NewEnv(cfg)
+		for f := 0; f < 1+r.IntN(2); f++ {
+			var batch []map[string]any
+			for j := 0; j < 1+r.IntN(3); j++ {
+				batch = append(batch, pick(r, pool))
+			}
+			env.IngestWait(batch)
+		}
+		if r.Chance(0.5) {
+			env.Eng.Merge(context.Background())
+		}
+		files, _ := AllFiles(env.Meta)
+		pub := env.Data.Published()
+		c.r.Case(true, fmt.Sprint("entry-less", i))
+		c.r.Hit("c17.entry-less")
+		for _, f := range files {
+			for _, bm := range f.Metadata.DataBlocks {
+				data, err := bs.ReadDataBlockRowData(bytes.NewReader(pub[string(f.PointerBytes)]), &bm)
+				if err != nil {
+					c.r.Add(Finding{Kind: "violation", Check: "read-back", Detail: err.Error(), Replay: map[string]any{"file": string(f.PointerBytes)}})
+					continue
+				}
+				fields, toks, fts := map[string]bool{}, map[string]bool{}, map[string]bool{}
+				sc := bs.NewBlockRowScanner(data)
+				for {
+					row, ok, err := sc.Next()
+					if err != nil || !ok {
+						break
+					}
+					fs, ts, ft := bs.VerifIndexRow(row, bs.BasicWhitespaceLowerTokenizer)
+					for _, x := range fs {
+						fields[x] = true
+					}
+					for _, x := range ts {
+						toks[x] = true
+					}
+					for _, x := range ft {
+						fts[x] = true
+					}
+				}
+				want := bs.BloomEntryCounts{Fields: len(fields), Tokens: len(toks), FieldTokens: len(fts)}
+				if bm.BloomEntryCounts != want {
+					c.r.Add(Finding{Kind: "violation", Check: "entry-counts", Detail: fmt.Sprintf("block BloomEntryCounts %+v, distinct entries of its rows %+v", bm.BloomEntryCounts, want), Replay: map[string]any{"file": string(f.PointerBytes)}})
+				}
+			}
+		}
+		env.Stop()
 	}
 }
